@@ -609,6 +609,8 @@ fn gen_params(w: &mut Rng) -> ParamSpec {
             5 => w.range_f64(1e-7, 2e-4) * if w.chance(0.5) { 1.0 } else { -1.0 },
             // just either side of a rounding boundary of the fourth printed decimal
             6 => ((w.range_usize(0, 3_600_000) as f64 + 0.5 + w.range_f64(-0.02, 0.02)) / 10_000.0 - 180.0).to_radians(),
+            // a full turn and more
+            7 => *w.pick(&[13.5, -7.0, 2.0 * std::f64::consts::PI, -2.0 * std::f64::consts::PI, 4.0 * std::f64::consts::PI, 6.5]),
             _ => w.range_f64(-3.2, 3.2),
         }
     };
